@@ -771,7 +771,9 @@ pub fn emit_c2d_multiway(models: &[u32], n: u32, rng: &mut Rng) -> Vec<String> {
     }
     fn go(b: &mut B, models: &[u32], vars: &[u32], rng: &mut Rng) -> usize {
         // models: assignments (bit v-1) restricted to `vars`; non-empty
-        let k = (1 + rng.below(3) as usize).min(vars.len());
+        // with four or more variables left keep at least two for the branches below: a branch
+        // that is tautological over them then misses several features at once (smoothing)
+        let k = if vars.len() >= 4 { 1 + rng.below(2) as usize } else { (1 + rng.below(3) as usize).min(vars.len()) };
         let (block, rest) = vars.split_at(k);
         let mut branches = Vec::new();
         for a in 0..(1u32 << k) {
@@ -983,7 +985,9 @@ pub fn emit_d4_multiway(models: &[u32], n: u32, rng: &mut Rng) -> Vec<String> {
         let id = b.next;
         b.next += 1;
         b.lines.push(format!("o {} 0", id));
-        let k = (1 + rng.below(3) as usize).min(vars.len());
+        // with four or more variables left keep at least two for the branches below: a branch
+        // that is tautological over them then misses several features at once (smoothing)
+        let k = if vars.len() >= 4 { 1 + rng.below(2) as usize } else { (1 + rng.below(3) as usize).min(vars.len()) };
         let (block, rest) = vars.split_at(k);
         let mut edges = Vec::new();
         for a in 0..(1u32 << k) {
